@@ -1,7 +1,7 @@
 (** C01 -- gulped reading delivers every requested sample exactly once, in order.
     Subject: Gen.Plan.fil_plan (the block arithmetic of FilReader.read_plan, regenerated from readers.py on
     every run) executed by Model/Plan.v (hand model of the loop body) on Model/Stream.v (C02). *)
-From Coq Require Import ZArith List Bool.
+From Coq Require Import ZArith List Bool Lia.
 Require Import SPP.Base.Rt SPP.Gen.Plan SPP.Gen.Kernels SPP.Model.Bits SPP.Model.Stream SPP.Model.Plan SPP.Model.PlanPacked SPP.Proofs.C02_stream SPP.Proofs.C01_plan SPP.Proofs.C01_packed.
 Import ListNotations.
 Open Scope Z_scope.
@@ -20,6 +20,20 @@ Theorem C01_plan_sound : forall fs nch N gulp0 start nsamps skipback0,
     map (fun b => snd (fst b)) bl = zrange (len (map (fun _ => 0) bl)).
 Proof. exact plan_sound. Qed.
 Print Assumptions C01_plan_sound.
+
+(** [nch] above is the number of BYTES per sample (samp_stride): with nch := nchans for 8-bit and nch := nchans*2 / nchans*4 for
+    16/32-bit files the theorem is the byte-level statement at those depths (each block is a whole number of samples, the bytes of
+    exactly the selected samples in order); the packed depths are C01_plan_sound_packed below *)
+Corollary C01_plan_sound_items : forall fs nchans isz N gulp0 start nsamps skipback0,
+  1 <= nfiles fs -> 1 <= nchans -> 1 <= isz -> total fs = N * (nchans * isz) ->
+  0 <= start -> 1 <= nsamps -> start + nsamps <= N -> 1 <= gulp0 -> Z.abs skipback0 < Z.min nsamps gulp0 ->
+  exists bl, run_plan fs (nchans * isz) gulp0 start nsamps skipback0 = POk bl /\
+    stitch (Z.abs skipback0 * (nchans * isz)) bl = slice (flat fs) (start * (nchans * isz)) (nsamps * (nchans * isz)) /\
+    Forall (block_ok (nchans * isz) gulp0) bl.
+Proof. intros fs nchans isz N gulp0 start nsamps skipback0 H1 H2 H3 H4 H5 H6 H7 H8 H9.
+  destruct (plan_sound fs (nchans * isz) N gulp0 start nsamps skipback0 H1 ltac:(nia) H4 H5 H6 H7 H8 H9) as [bl [E [S [F _]]]].
+  exists bl. auto. Qed.
+Print Assumptions C01_plan_sound_items.
 
 (** a plan whose skipback is not smaller than the effective gulp is rejected before anything is yielded *)
 Theorem C01_plan_reject : forall fs nch gulp0 start nsamps skipback0,
